@@ -189,6 +189,7 @@ fn run_seq(c: &[Val]) -> Val {
     let seen = if use_alias { alias.clone() } else { path.clone() };
     out.push(snapshot(true, &seen));
     let mut seq = 0usize;
+    let mut moved = 0usize;
     for op in ops {
         let op = op.l();
         if op[0].n() == 0 {
@@ -205,6 +206,19 @@ fn run_seq(c: &[Val]) -> Val {
             let ok = app.as_ref().unwrap().append(&format!("0:{}:fail", seq));
             seq += 1;
             out.push(snapshot(ok, &seen));
+        } else if op[0].n() == 3 {
+            // external rotation, then a reload: the file is renamed away, a new appender is built on the path
+            // while the old one is still alive, then the old one is dropped
+            moved += 1;
+            std::fs::rename(&path, dir.path().join(format!("moved-away-{}", moved))).expect("external rotation");
+            let fresh = mk(op[1].b());
+            drop(app.take());
+            app = Some(fresh);
+            if use_alias {
+                let _ = std::fs::remove_file(&alias);
+                std::fs::hard_link(&path, &alias).expect("hard link");
+            }
+            out.push(snapshot(true, &seen));
         } else {
             drop(app.take());
             app = Some(mk(op[1].b()));
@@ -384,10 +398,62 @@ fn run_shared(c: &[Val]) -> Val {
     Val::L(out)
 }
 
+/// RLIMIT_FSIZE soft limit (SIGXFSZ ignored): a write beyond it fails with EFBIG - the disk is full; restored on drop
+struct FsizeLimit {
+    old: libc::rlimit,
+}
+impl FsizeLimit {
+    fn set(bytes: u64) -> FsizeLimit {
+        unsafe {
+            libc::signal(libc::SIGXFSZ, libc::SIG_IGN);
+            let mut old = libc::rlimit { rlim_cur: 0, rlim_max: 0 };
+            assert_eq!(libc::getrlimit(libc::RLIMIT_FSIZE, &mut old), 0);
+            let new = libc::rlimit { rlim_cur: bytes as libc::rlim_t, rlim_max: old.rlim_max };
+            assert_eq!(libc::setrlimit(libc::RLIMIT_FSIZE, &new), 0);
+            FsizeLimit { old }
+        }
+    }
+}
+impl Drop for FsizeLimit {
+    fn drop(&mut self) {
+        unsafe {
+            libc::setrlimit(libc::RLIMIT_FSIZE, &self.old);
+        }
+    }
+}
+
+/// kind 5  (5 a pre room n_full (record ...))   a disk that is FULL for a while, on the real FileAppender:
+///   the appender is built (mode a) over `pre`; while the file may grow by only `room` more bytes the first n_full
+///   records are appended (some calls fail), then the limit is lifted and the rest is appended.
+///   result ( (ok ...) final-file )  - judged directly: every record whose append returned Ok is in the file, whole,
+///   in call order (gen/c04.py `full_disk_oracle`); what a FAILED call leaves behind is not constrained.
+fn run_full_disk(c: &[Val]) -> Val {
+    let a = c[1].b();
+    let dir = tempfile::tempdir().unwrap();
+    let path = prepare_path(dir.path(), &c[2]);
+    let recs: Vec<Vec<Vec<u8>>> = c[5].l().iter().map(chunks_of).collect();
+    let table = Arc::new(vec![recs.clone()]);
+    let app = build(&path, a, Box::new(ScriptEncoder { table, yield_mode: 0 }));
+    let size = std::fs::metadata(&path).map(|m| m.len()).unwrap_or(0);
+    let mut oks = vec![];
+    {
+        let _full = FsizeLimit::set(size + c[3].n() as u64);
+        for i in 0..c[4].u().min(recs.len()) {
+            oks.push(Val::bool(do_append(&app, &format!("0:{}", i))));
+        }
+    }
+    for i in c[4].u().min(recs.len())..recs.len() {
+        oks.push(Val::bool(do_append(&app, &format!("0:{}", i))));
+    }
+    drop(app);
+    Val::L(vec![Val::L(oks), Val::S(std::fs::read(&path).expect("read log file"))])
+}
+
 fn run(case: &Val) -> Val {
     let c = case.l();
     match c[0].n() {
         0 => run_seq(c),
+        5 => run_full_disk(c),
         1 => run_conc(c),
         3 => run_shared(c),
         _ => run_bufw(c),
